@@ -135,6 +135,25 @@ class Real(object):
         try:
             if ev == "addpar":
                 self.p.addpar(self.mod.par(e["n"], V(e["v"]), vary=e["vary"], can_vary=e["cv"], stepsize=V(e["st"])))
+            elif ev == "addpar_sl":
+                # "to send to Java": the par object travels as a string list and is rebuilt on the other side
+                src = self.mod.par(e["n"], V(e["v"]), vary=e["vary"], can_vary=e["cv"], stepsize=V(e["st"]))
+                dst = self.mod.par("placeholder", None)
+                dst.fromstringlist(src.tostringlist())
+                self.p.addpar(dst)
+            elif ev == "construct":
+                d = e["d"] if isinstance(e["d"], dict) else {}
+                self.p = self.mod.parameters(**{n: V(t) for n, t in d.items()})
+            elif ev == "get_variable_stepsizes":
+                r = self.p.get_variable_stepsizes()
+                ret = {"tag": "values", "val": [self.tok.token(x) or {"k": "FOREIGN", "x": repr(x)} for x in r]}
+            elif ev == "get_variable_list":
+                ret = {"tag": "names", "val": list(self.p.get_variable_list())}
+            elif ev == "get_parameters":
+                r = self.p.get_parameters()
+                ret = {"tag": "dict", "val": {n: (self.tok.token(x) or {"k": "FOREIGN", "x": repr(x)}) for n, x in r.items()}}
+            elif ev == "read_par_file":
+                self.p = self.mod.read_par_file(self.path)
             elif ev == "set":
                 self.p.set(e["n"], V(e["v"]))
             elif ev == "set_parameters":
@@ -200,7 +219,9 @@ def same_post(model, real):
             return k
     if m["ret"]["tag"] != r["ret"]["tag"]:
         return "ret"
-    if m["ret"]["tag"] in ("value", "values") and m["ret"]["val"] != r["ret"]["val"]:
+    if m["ret"]["tag"] in ("value", "values", "names") and m["ret"]["val"] != r["ret"]["val"]:
+        return "ret"
+    if m["ret"]["tag"] == "dict" and (m["ret"]["val"] if isinstance(m["ret"]["val"], dict) else {}) != r["ret"]["val"]:
         return "ret"
     return None
 
@@ -266,7 +287,11 @@ def record_traces(n, maxlen, seed, wd):
         st.tuples(st.just("set_variable_values"), st.lists(vals, max_size=3)),
         st.tuples(st.just("get_variable_values")), st.tuples(st.just("update_other")),
         st.tuples(st.just("update_yourself")), st.tuples(st.just("other_set"), names, vals),
-        st.tuples(st.just("save")), st.tuples(st.just("load")), st.tuples(st.just("load_fresh")))
+        st.tuples(st.just("save")), st.tuples(st.just("load")), st.tuples(st.just("load_fresh")),
+        st.tuples(st.just("addpar_sl"), names, vals, st.booleans(), st.booleans(), vals),
+        st.tuples(st.just("construct"), st.dictionaries(names, vals, max_size=3)),
+        st.tuples(st.just("get_variable_stepsizes")), st.tuples(st.just("get_variable_list")),
+        st.tuples(st.just("get_parameters")), st.tuples(st.just("read_par_file")))
     out = []
 
     @hseed(seed)
@@ -303,13 +328,15 @@ def record_traces(n, maxlen, seed, wd):
         try:
             for s in seq:
                 kind = s[0]
-                if kind in ("load", "load_fresh") and not saved:
+                if kind in ("load", "load_fresh", "read_par_file") and not saved:
                     continue
-                if kind == "addpar":
+                if kind == "construct" and any(sp[0] in ("str_int", "str_padint", "str_float", "str_padded") for sp in s[1].values()):
+                    continue          # the constructor's treatment of numeric-looking text is left open (see Parameters.tla)
+                if kind in ("addpar", "addpar_sl"):
                     e = {"ev": kind, "n": s[1], "v": intern(s[2]), "vary": s[3], "cv": s[4], "st": intern(s[5])}
                 elif kind in ("set", "other_set"):
                     e = {"ev": kind, "n": s[1], "v": intern(s[2])}
-                elif kind == "set_parameters":
+                elif kind in ("set_parameters", "construct"):
                     e = {"ev": kind, "d": {nm: intern(sp) for nm, sp in s[1].items()}}
                 elif kind == "get":
                     e = {"ev": kind, "n": s[1]}
@@ -343,7 +370,8 @@ def to_tla_trace(tr):
 
     def post(p):
         return {"pars": M(p["pars"]), "varylist": p["varylist"], "variable_list": p["variable_list"],
-                "stepsizes": M(p["stepsizes"]), "other": M(p["other"]), "ret": p["ret"]}
+                "stepsizes": M(p["stepsizes"]), "other": M(p["other"]),
+                "ret": p["ret"] if p["ret"]["tag"] != "dict" else {"tag": "dict", "val": M(p["ret"]["val"])}}
     return {"other0": M(tr["other0"]), "events": [{"e": ev(x["e"]), "post": post(x["post"])} for x in tr["events"]]}
 
 
